@@ -98,7 +98,8 @@ class ThmRunner:
     compared with the implementation; the flags are kept for the theorem tie and for the evidence."""
     def __init__(self):
         self.flags = {}          # cid -> list of (P, K)
-        self.stats = {"trees": 0, "premises_hold": 0, "printer_tokens_hold": 0, "premises_and_tokens": 0}
+        self.stats = {"trees": 0, "premises_hold": 0, "printer_tokens_hold": 0, "premises_and_tokens": 0,
+                      "lexically_sane_and_premises": 0}
     def run(self, lines, timeout=900):
         raw = run_lines([build.model_bin(), "--table", build.table_path(), "--thm"], lines, timeout)
         out = {}
@@ -109,6 +110,8 @@ class ThmRunner:
                 if "|P" in field:
                     body, suf = field.rsplit("|", 1)
                     pk = (suf[1] == "1", suf[3] == "1")
+                    sane = len(suf) > 5 and suf[5] == "1"
+                    self.stats["lexically_sane_and_premises"] += pk[0] and sane
                     fl.append(pk)
                     self.stats["trees"] += 1
                     self.stats["premises_hold"] += pk[0]
